@@ -170,7 +170,7 @@ def run_selfcheck_stream(st, tier, seed, judge):
     jobs = []
     for run in st['runs'][tier]:
         for i in range(run.get('shards', 1)):
-            jobs.append([exe] + run['args'] + ['--seed', str(seed), '--shard', str(i), str(run.get('shards', 1))])
+            jobs.append([exe] + run['args'] + ['--seed', str(seed), '--shard', str(i), str(run.get('of', run.get('shards', 1)))])
     tot = dict(n=0, nontrivial=0, distinct_nontrivial=0, mismatches=0, bad=0)
     keys = set()
 
@@ -178,12 +178,31 @@ def run_selfcheck_stream(st, tier, seed, judge):
         r = {'n': 0, 'mism': [], 'crash': None, 'keys': set(), 'seen': set(), 'samples': []}
         try:
             with tempfile.TemporaryFile(dir=uvlib.BUILD) as e1:
-                p = subprocess.run(cmd, stdout=subprocess.PIPE, stderr=e1, timeout=st.get('timeout', 1500))
+                env = dict(os.environ, ASAN_OPTIONS='detect_leaks=0:handle_segv=0:handle_sigfpe=0:handle_abort=0', UBSAN_OPTIONS='print_stacktrace=0:halt_on_error=0',
+                           TSAN_OPTIONS='halt_on_error=0')
+                p = subprocess.run(cmd, stdout=subprocess.PIPE, stderr=e1, timeout=st.get('timeout', 1500), env=env)
+                if st.get('stderr_rx'):
+                    import re
+                    e1.seek(0); err = e1.read().decode(errors='replace')
+                    hits = [l for l in err.splitlines() if re.search(st['stderr_rx'], l)]
+                    if 'UBSAN-CASE 1' in err or 'UBSAN-CASE 2' in err or 'UBSAN-CASE 3' in err or 'UBSAN-CASE 4' in err or 'UBSAN-CASE 5' in err or 'UBSAN-CASE 6' in err:
+                        hits = [h for h in hits if 'runtime error' not in h]      # attributed to a case line ('!ubsan:' result)
+                    r['stderr_reports'] = [l for l in err.splitlines() if 'runtime error' in l or 'SUMMARY' in l or '-CASE' in l][:40]
+                    uniq = sorted(set(re.sub(r'0x[0-9a-f]+|\d+', 'N', h)[:200] for h in hits))
+                    for h in uniq[:20]:
+                        r['mism'].append({'fam': 0, 'cfg': '', 'op': 0, 'opname': 'sanitizer', 'args': '', 'impl': h, 'line': h + '   [' + ' '.join(cmd[-6:]) + ']', 'model': 'no sanitizer report'})
         except subprocess.TimeoutExpired:
             r['crash'] = 'timeout: ' + ' '.join(cmd); return r
         if p.returncode != 0:
             r['crash'] = 'driver exit %d: %s' % (p.returncode, ' '.join(cmd))
         for line in p.stdout.decode(errors='replace').splitlines():
+            if line.startswith('THREADS '):
+                r['n'] += 1; r['seen'].add(hash(line))
+                if 'MISMATCH' in line:
+                    r['mism'].append({'fam': 0, 'cfg': '', 'op': 0, 'opname': 'threads', 'args': '', 'impl': line, 'line': line, 'model': 'sequential result'})
+                elif len(r['samples']) < 2:
+                    r['samples'].append(line)
+                continue
             if not line[:1].isdigit():
                 continue
             f = line.split(' ')
@@ -192,8 +211,8 @@ def run_selfcheck_stream(st, tier, seed, judge):
             r['n'] += 1
             r['keys'].add((f[0], f[1], f[2]))
             r['seen'].add(hash(line))
-            if f[4].startswith('!btdiff') or f[4].startswith('!SIG'):
-                c = uvlib.parse_case(line); c['model'] = 'all block types must agree'
+            if any(f[4].startswith(b) for b in st.get('bad', ('!btdiff', '!SIG'))):
+                c = uvlib.parse_case(line); c['model'] = st.get('expect', 'all block types must agree')
                 r['mism'].append(c)
             elif r['n'] % 5000 == 1:
                 r['samples'].append(line)
@@ -263,6 +282,15 @@ DRIVERS = {
 for k in (0, 1, 2, 3, 4, 10, 11, 12, 13):
     DRIVERS['cfloat_s%d' % k] = {'src': 'drv_cfloat.cpp', 'flags': ['-DSET=%d' % k]}
     DRIVERS['cfloat_s%d_thr' % k] = {'src': 'drv_cfloat.cpp', 'flags': ['-DSET=%d' % k, '-DTHROWING=1']}
+# C20: the same drivers instrumented with AddressSanitizer + UndefinedBehaviorSanitizer (reports attributed to the case, see
+# SAN_TRACE in drvkit.hpp) and with the complete-object canonical-form check; one ThreadSanitizer build
+SAN = ['-fsanitize=address,undefined', '-fno-omit-frame-pointer', '-g1', '-DSAN_TRACE', '-DCHECK_CANONICAL']
+for _k in ('posit_small', 'posit_large', 'posit_fastset_fast', 'fixpnt_small', 'fixpnt_large', 'integer_small', 'integer_large',
+           'lns_small', 'lns_large', 'areal_all', 'quire_all', 'text_all', 'elastic_all', 'convcfg_p0', 'cfloat_s0', 'cfloat_s2', 'cfloat_s10',
+           'cfloat_s11', 'dd_all'):
+    DRIVERS[_k + '_san'] = {'src': DRIVERS[_k]['src'], 'flags': DRIVERS[_k].get('flags', []) + SAN}
+DRIVERS['threads_tsan'] = {'src': 'drv_threads.cpp', 'flags': ['-fsanitize=thread', '-g1']}
+DRIVERS['programs_san'] = {'src': 'drv_threads.cpp', 'flags': SAN}
 CF_SMALL = ['cfloat_s0', 'cfloat_s1', 'cfloat_s2', 'cfloat_s3']
 CF_LARGE = ['cfloat_s10', 'cfloat_s11', 'cfloat_s12', 'cfloat_s13']
 
@@ -374,6 +402,24 @@ def pair(name, d1, d2, args_q, args_t, compare, shards=16, what='', exhaustive=F
             'runs': {'quick': [dict(args=args_q, shards=shards)], 'thorough': [dict(args=args_t, shards=shards)]}}
 
 
+SAN_BAD = ('!ubsan', '!stale', '!SIG')
+SAN_RX = r'runtime error|AddressSanitizer|ThreadSanitizer|LeakSanitizer|Assertion'
+
+
+def san(name, driver, group, mode, q, t, shards=16, of_quick=None, what=''):
+    """C20: a sanitizer-instrumented driver; a case whose result is '!ubsan:..' (UBSan report raised while it ran), '!stale:..'
+    (bits set outside the type's width) or '!SIG<n>' (crash / non-termination) is a violation, so is any sanitizer text on stderr
+    and a non-zero exit status (ASan aborts)"""
+    a = lambda c: ['--mode', mode] + (['--group', group] if group else []) + (['--count', str(c)] if mode != 'exh' else [])
+    rq = dict(args=a(q), shards=shards)
+    if of_quick:
+        rq['of'] = of_quick
+    return {'name': name, 'kind': 'selfcheck', 'driver': driver, 'bad': SAN_BAD, 'stderr_rx': SAN_RX, 'timeout': 3000,
+            'expect': 'a well-formed result and no sanitizer report',
+            'what': what or ('%s %s/%s under ASan+UBSan with the canonical-form check' % (driver, mode, group)),
+            'runs': {'quick': [rq], 'thorough': [dict(args=a(t), shards=shards)]}}
+
+
 def blk(name, part, group, q, t, mode='rnd'):
     a = lambda c: ['--mode', mode, '--group', group] + (['--count', str(c)] if mode == 'rnd' else [])
     return {'name': name, 'kind': 'selfcheck', 'driver': 'blocks_p%d' % part, 'what': 'every operation executed for each BlockType; raw results must be identical',
@@ -381,6 +427,40 @@ def blk(name, part, group, q, t, mode='rnd'):
 
 
 PLANS = {
+    'C20': {
+        'level': 'other', 'coq': 'Properties_C20',
+        'rule': 'the correspondence drivers of C01..C19 rebuilt with AddressSanitizer + UndefinedBehaviorSanitizer: every encoding / operand pair of the small '
+                'posit, fast-posit, cfloat, fixpnt, integer and lns configurations (a quarter of the pairs in the quick tier, all in the thorough tier) and structured '
+                'samples of the large ones, through arithmetic, comparisons, ++/--, native conversions (all integer widths incl. the most negative values, NaNs, '
+                'infinities, subnormals), sqrt, shifts by -nbits-1..nbits+1, text IO, quire histories, elastic types, cross-configuration conversions, dd/qd; a UBSan '
+                'report is attributed to the case that raised it; each result object is compared byte for byte with its canonical re-encoding (no stale bits); '
+                'a 2 s watchdog catches non-termination. Random straight-line programs (results feeding the next operation, text IO mixed in) for ten type '
+                'families under ASan+UBSan, and the same programs on 8..10 concurrent threads under ThreadSanitizer, digests compared with sequential execution',
+        'assumptions': ['memory errors, undefined behaviour and data races are properties of the compiled program, not of the Gallina model: they are observed by '
+                        'instrumentation on the inputs run (not proved for all inputs); the theorems cover totality and well-formedness of the modelled operations'],
+        'streams': [san('san_posit_arith', 'posit_small_san', 'arith', 'exh', 0, 0, of_quick=64), san('san_posit_cmp', 'posit_small_san', 'cmp', 'exh', 0, 0, of_quick=64),
+                    san('san_posit_conv', 'posit_small_san', 'conv', 'exh', 0, 0), san('san_posit_sqrt', 'posit_small_san', 'sqrt', 'exh', 0, 0, shards=4),
+                    san('san_posit_large_arith', 'posit_large_san', 'arith', 'rnd', 300, 6000, shards=23), san('san_posit_large_cmp', 'posit_large_san', 'cmp', 'rnd', 200, 4000, shards=23),
+                    san('san_posit_large_conv', 'posit_large_san', 'conv', 'rnd', 60, 1500, shards=23), san('san_posit_large_sqrt', 'posit_large_san', 'sqrt', 'rnd', 200, 4000, shards=23),
+                    san('san_fast_arith', 'posit_fastset_fast_san', 'arith', 'exh', 0, 0, of_quick=64), san('san_fast_cmp', 'posit_fastset_fast_san', 'cmp', 'exh', 0, 0, of_quick=64),
+                    san('san_fast_conv', 'posit_fastset_fast_san', 'conv', 'exh', 0, 0), san('san_fast_sqrt', 'posit_fastset_fast_san', 'sqrt', 'exh', 0, 0, shards=4),
+                    san('san_fast_large_arith', 'posit_fastset_fast_san', 'arith', 'rnd', 3000, 60000), san('san_fast_large_conv', 'posit_fastset_fast_san', 'conv', 'rnd', 200, 4000),
+                    san('san_fast_large_cmp', 'posit_fastset_fast_san', 'cmp', 'rnd', 1000, 20000), san('san_fast_large_sqrt', 'posit_fastset_fast_san', 'sqrt', 'rnd', 1000, 20000)] +
+                   [san('san_cfloat%d_%s' % (k, g), 'cfloat_s%d_san' % k, g, 'exh', 0, 0, of_quick=(64 if g in ('arith', 'cmp') else None)) for k in (0, 2) for g in ('arith', 'cmp', 'conv', 'sqrt')] +
+                   [san('san_cfloat%d_%s' % (k, g), 'cfloat_s%d_san' % k, g, 'rnd', c, 20 * c, shards=4) for k in (10, 11) for g, c in (('arith', 600), ('cmp', 400), ('conv', 100), ('sqrt', 300))] +
+                   [san('san_%s_%s' % (d, g), d + '_small_san', g, 'exh', 0, 0, of_quick=(64 if g in ('arith', 'cmp', 'logic') else None))
+                    for d, gs in (('fixpnt', ('arith', 'cmp', 'conv', 'sqrt')), ('integer', ('arith', 'logic', 'cmp', 'conv', 'sqrt')), ('lns', ('arith', 'cmp', 'conv'))) for g in gs] +
+                   [san('san_%s_large_%s' % (d, g), d + '_large_san', g, 'rnd', c, 20 * c)
+                    for d, gs in (('fixpnt', (('arith', 300), ('cmp', 200), ('conv', 60), ('sqrt', 100))), ('integer', (('arith', 300), ('logic', 200), ('cmp', 200), ('conv', 60), ('sqrt', 100))),
+                                  ('lns', (('arith', 300), ('cmp', 200), ('conv', 60)))) for g, c in gs] +
+                   [san('san_areal_from', 'areal_all_san', 'from', 'exh', 0, 0), san('san_areal_to', 'areal_all_san', 'to', 'exh', 0, 0), san('san_areal_rnd', 'areal_all_san', 'from', 'rnd', 300, 6000),
+                    san('san_quire', 'quire_all_san', None, 'rnd', 40, 800), san('san_text_exh', 'text_all_san', None, 'exh', 0, 0, shards=8), san('san_text_rnd', 'text_all_san', None, 'rnd', 500, 10000),
+                    san('san_elastic', 'elastic_all_san', None, 'rnd', 150, 3000, shards=8), san('san_convcfg_exh', 'convcfg_p0_san', 'arith', 'exh', 0, 0, shards=8),
+                    san('san_convcfg_rnd', 'convcfg_p0_san', 'arith', 'rnd', 800, 16000, shards=8), san('san_ddqd', 'dd_all_san', None, 'rnd', 200, 4000),
+                    san('san_programs', 'programs_san', None, 'rnd', 1500, 30000, shards=10, what='random straight-line programs per type family (results feed the next operation) under ASan+UBSan'),
+                    san('tsan_threads', 'threads_tsan', None, 'rnd', 1500, 20000, shards=10,
+                        what='the same programs on 8 threads per family and all families concurrently under ThreadSanitizer; digests equal to sequential execution')],
+    },
     'C10': {
         'level': 'proof', 'coq': 'Properties_C10',
         'rule': 'normalised dd (qd) operands built by the driver with exact two_sum steps: leading exponents -40..40 (5% up to +-800), exponent gaps 0..110 (220 for qd), '
